@@ -11,6 +11,15 @@ import traceback
 VERIF = os.path.dirname(os.path.dirname(os.path.abspath(__file__)))
 
 
+class _Known(list):
+    """the known findings of one property, read from the committed known_findings.json ONLY: a driver's
+    PROPOSED_FINDINGS are a development aid and are accepted at run time only with VERIF_ACCEPT_PROPOSED=1"""
+
+    def append(self, x):
+        if os.environ.get("VERIF_ACCEPT_PROPOSED") == "1":
+            list.append(self, x)
+
+
 class Recorder(object):
     def __init__(self, pid, tier, seed):
         self.pid, self.tier, self.seed = pid, tier, seed
@@ -22,7 +31,7 @@ class Recorder(object):
         self.groups = {}
         self.assumptions = []
         with open(os.path.join(VERIF, "known_findings.json")) as f:
-            self.known = [k for k in json.load(f).get("findings", []) if k.get("property") == pid]
+            self.known = _Known(k for k in json.load(f).get("findings", []) if k.get("property") == pid)
 
     def case(self, group, key=None):
         """count one evaluated case in a named group; key marks distinct non-trivial cases"""
